@@ -22,6 +22,9 @@ use super::runtime;
 pub struct GlobalGoEnv {
     pub genv: GlobalTypeEnv,
     pub liftenv: GlobalLiftEnv,
+    /// Enum variables that the enclosing type switches have rebound to a variant struct
+    /// (`switch x := x.(type)`): matching on one of them again needs the interface value back.
+    narrowed: std::cell::RefCell<Vec<String>>,
 }
 
 impl Default for GlobalGoEnv {
@@ -29,7 +32,11 @@ impl Default for GlobalGoEnv {
         let genv = crate::env::GlobalTypeEnv::new();
         let monoenv = crate::mono::GlobalMonoEnv::from_genv(genv.clone());
         let liftenv = crate::lift::GlobalLiftEnv::from_monoenv(monoenv);
-        Self { genv, liftenv }
+        Self {
+            genv,
+            liftenv,
+            narrowed: Default::default(),
+        }
     }
 }
 
@@ -37,7 +44,11 @@ impl GlobalGoEnv {
     pub fn from_anf_env(anfenv: GlobalAnfEnv) -> Self {
         let liftenv = anfenv.liftenv.clone();
         let genv = liftenv.monoenv.genv.clone();
-        Self { genv, liftenv }
+        Self {
+            genv,
+            liftenv,
+            narrowed: Default::default(),
+        }
     }
 
     pub fn enums(&self) -> impl Iterator<Item = (&TastIdent, &EnumDef)> {
@@ -1689,16 +1700,15 @@ where
                     unreachable!("expected scrutinee to be a variable after ANF lowering")
                 }
             };
+            let switched = enum_switch_operand(goenv, scrutinee, &scrutinee_name);
             let mut cases = Vec::new();
             for arm in arms {
                 if let anf::ImmExpr::ImmTag { index, ty } = &arm.lhs {
                     let vty = variant_ty_by_index(goenv, ty, *index);
-                    cases.push((
-                        vty,
-                        goast::Block {
-                            stmts: build_branch(arm.body.clone()),
-                        },
-                    ));
+                    goenv.narrowed.borrow_mut().push(scrutinee_name.clone());
+                    let stmts = build_branch(arm.body.clone());
+                    goenv.narrowed.borrow_mut().pop();
+                    cases.push((vty, goast::Block { stmts }));
                 } else {
                     panic!("expected ImmTag in enum match arm");
                 }
@@ -1708,7 +1718,7 @@ where
             });
             vec![goast::Stmt::SwitchType {
                 bind: Some(scrutinee_name),
-                expr: compile_imm(goenv, scrutinee),
+                expr: switched,
                 cases,
                 default: default_block,
             }]
@@ -1724,16 +1734,15 @@ where
                         unreachable!("expected scrutinee to be a variable after ANF lowering")
                     }
                 };
+                let switched = enum_switch_operand(goenv, scrutinee, &scrutinee_name);
                 let mut cases = Vec::new();
                 for arm in arms {
                     if let anf::ImmExpr::ImmTag { index, ty } = &arm.lhs {
                         let vty = variant_ty_by_index(goenv, ty, *index);
-                        cases.push((
-                            vty,
-                            goast::Block {
-                                stmts: build_branch(arm.body.clone()),
-                            },
-                        ));
+                        goenv.narrowed.borrow_mut().push(scrutinee_name.clone());
+                        let stmts = build_branch(arm.body.clone());
+                        goenv.narrowed.borrow_mut().pop();
+                        cases.push((vty, goast::Block { stmts }));
                     } else {
                         panic!("expected ImmTag in enum match arm");
                     }
@@ -1743,7 +1752,7 @@ where
                 });
                 vec![goast::Stmt::SwitchType {
                     bind: Some(scrutinee_name),
-                    expr: compile_imm(goenv, scrutinee),
+                    expr: switched,
                     cases,
                     default: default_block,
                 }]
@@ -1754,6 +1763,32 @@ where
             ),
         },
         _ => panic!("unsupported scrutinee type for match in Go backend"),
+    }
+}
+
+/// The operand of `switch x := <operand>.(type)`. Inside a case of an enclosing switch on the
+/// same variable `x` names the variant struct, which is not an interface: convert it back to the
+/// enum's interface type first (`E(x)` is valid for both).
+fn enum_switch_operand(
+    goenv: &GlobalGoEnv,
+    scrutinee: &anf::ImmExpr,
+    scrutinee_name: &str,
+) -> goast::Expr {
+    let operand = compile_imm(goenv, scrutinee);
+    if !goenv.narrowed.borrow().iter().any(|n| n == scrutinee_name) {
+        return operand;
+    }
+    let enum_ty = tast_ty_to_go_type(&imm_ty(scrutinee));
+    let goty::GoType::TName { name } = &enum_ty else {
+        return operand;
+    };
+    goast::Expr::Call {
+        func: Box::new(goast::Expr::Var {
+            name: name.clone(),
+            ty: enum_ty.clone(),
+        }),
+        args: vec![operand],
+        ty: enum_ty,
     }
 }
 
